@@ -66,7 +66,7 @@ func Build(kvs []types.Entry) *Filter {
 func (f *Filter) Add(key string) {
 	for _, fn := range f.hashFns {
 		_, _ = fn.Write([]byte(key))
-		index := int(fn.Sum32()) % len(f.bitset)
+		index := int(uint64(fn.Sum32()) % uint64(len(f.bitset)))
 		f.bitset[index] = true
 		fn.Reset()
 	}
@@ -76,7 +76,7 @@ func (f *Filter) Add(key string) {
 func (f *Filter) Contains(key string) bool {
 	for _, fn := range f.hashFns {
 		_, _ = fn.Write([]byte(key))
-		index := int(fn.Sum32()) % len(f.bitset)
+		index := int(uint64(fn.Sum32()) % uint64(len(f.bitset)))
 		fn.Reset()
 		if !f.bitset[index] {
 			return false
